@@ -295,11 +295,22 @@ def _dominating_guards(site):
     return out
 
 
+def _edge_matches(edge, want):
+    """`x?` lowers to a match on ControlFlow: its Continue edge is the Some / Ok edge of x, its Break edge the None / Err edge"""
+    if edge == want:
+        return True
+    if edge == "continue" and want in ("some", "ok"):
+        return True
+    if edge == "break" and want in ("none", "err"):
+        return True
+    return False
+
+
 def req_guard_call(site, req):
     rx = re.compile(req["guard_call"])
     want = req.get("edge", "some").lower()
     for g in _dominating_guards(site):
-        if g["edge"] != want:
+        if not _edge_matches(g["edge"], want):
             continue
         for o in g["origins"]:
             if o.kind == "call" and rx.search(short(o.call.name)):
@@ -315,7 +326,7 @@ def _guard_identity(site, req):
     want = req.get("edge", "some").lower()
     best = None
     for g in _dominating_guards(site):
-        if g["edge"] != want:
+        if not _edge_matches(g["edge"], want):
             continue
         for o in g["origins"]:
             if o.kind == "call" and rx.search(short(o.call.name)):
